@@ -466,6 +466,11 @@ def run_handler_scenario(seed, n_events=14):
             report["outputs"] += len(obs)
             if inst["kind"] in ("parse_error", "no_arg", "did_not_start"):
                 unreg = [o for o in obs if o["topic"] == inst["name"] + ".unregistered"]
+                superseding = [f["id"] for f in fr if f["ctx"] == inst["ctx"] and f["id"] > inst["id"]
+                               and f["topic"] in (inst["name"] + ".register", inst["name"] + ".unregister")]
+                if (inst["kind"] == "did_not_start" and len(obs) == 1 and obs[0]["topic"] == inst["name"] + ".unregistered"
+                        and not obs[0]["err"] and obs[0]["fid"] in superseding):
+                    continue    # replaced / unregistered before it had started to listen: it stood down and said so
                 if inst["kind"] == "did_not_start":
                     report["violations"].append(dict(what=f"handler {inst['name']} with a valid script was never announced as registered",
                                                      script=render_handler(inst["prog"]), outputs=[str(o)[:200] for o in obs][:3]))
@@ -1602,3 +1607,34 @@ def http_write_atomicity_probe():
         return out
     finally:
         cl.close()
+
+
+def double_register_probe(trials=4):
+    """C16: the same name registered twice in quick succession (tail mode): the second `.register` is already in the
+    stream when the first instance starts to listen. Afterwards exactly ONE instance answers, and the other one has been
+    announced as unregistered -> dict(trials, bad=[...])"""
+    out = dict(trials=0, bad=[])
+    for k in range(trials):
+        cl = Client("api,handlers")
+        try:
+            # the first script carries a module that takes a while to load: the second registration is appended while the
+            # first instance is still being set up
+            big = "\\n".join(f"export def f{i} [] {{ {i} }}" for i in range(1500 if k % 2 == 0 else 0))
+            s1 = '{ modules: { big: "%s" }, resume_from: "tail", run: {|frame| if $frame.topic != "trig" { return }; "one" } }' % big
+            s2 = '{ resume_from: "tail", run: {|frame| if $frame.topic != "trig" { return }; "two" } }'
+            ctx = 0 if k < 2 else (cl.append("xs.context") or 0)
+            a = cl.append("h.register", ctx=ctx, body=s1.encode())
+            b = cl.append("h.register", ctx=ctx, body=s2.encode())
+            cl.settle(0.6, 15)
+            cl.append("trig", ctx=ctx)
+            cl.settle(0.5, 10)
+            fr = cl.frames()
+            outs = [cl.cas(f["hash"]) for f in fr if f["topic"] == "h.out"]
+            unreg = [f["meta"].get("handler_id") for f in fr if f["topic"] == "h.unregistered" and f["meta"]]
+            out["trials"] += 1
+            if outs != [b'"two"'] or unreg != [H.id_to_s(a)]:
+                out["bad"].append(dict(trial=k, answers=[o.decode() if o else None for o in outs], unregistered=[u[-6:] for u in unreg],
+                                       first=H.id_to_s(a)[-6:], second=H.id_to_s(b)[-6:]))
+        finally:
+            cl.close()
+    return out
